@@ -479,7 +479,12 @@ pub fn c10_handlers(env: &Env) -> i32 {
 // C06 progress after the network heals
 
 /// The fair synchronous suffix: a fixed rule, not generated. Returns Err on a violation.
-async fn fair_suffix(w: &mut World, info: &mut RunInfo, st: &mut Stats) -> Result<(), String> {
+async fn fair_suffix(w: &mut World, info: &mut RunInfo, st: &mut Stats, order: u8) -> Result<(), String> {
+    st.class(match order {
+        0 => "suffix_delivers_in_pool_order",
+        1 => "suffix_delivers_newest_first",
+        _ => "suffix_delivers_proposals_first",
+    });
     use crate::act::{Action, KIND_ALL};
     // heal: every correct node is up and persistence is immediate
     for i in w.correct() {
@@ -505,8 +510,32 @@ async fn fair_suffix(w: &mut World, info: &mut RunInfo, st: &mut Stats) -> Resul
     let mut idle_rounds = 0;
     for round in 0..200 {
         let before = (w.steps.len(), w.pool.len(), heights(w));
-        // reliable delivery among correct nodes + block fetching
-        apply(w, &Action::Flush { mask: u16::MAX, kinds: KIND_ALL, limit: 10_000, rounds: 1 }, info).await?;
+        // reliable delivery among correct nodes + block fetching; the network is reliable, not FIFO: per run, pending
+        // messages arrive in pool order, newest first, or proposals first
+        if order == 0 {
+            apply(w, &Action::Flush { mask: u16::MAX, kinds: KIND_ALL, limit: 10_000, rounds: 1 }, info).await?;
+        } else {
+            for i in w.correct() {
+                if w.ready(i) {
+                    w.propose(i).await;
+                }
+            }
+            for i in w.correct() {
+                let mut pending: Vec<usize> = (0..w.pool.len()).filter(|m| !w.node(i).delivered.contains(m)).collect();
+                if order == 1 {
+                    pending.reverse();
+                } else {
+                    pending.sort_by_key(|m| (crate::sim::kind_of(&w.pool[*m].msg) != crate::sim::Kind::Proposal, *m));
+                }
+                for m in pending {
+                    if w.ready(i) && !w.node(i).delivered.contains(&m) {
+                        w.deliver(i, m, false).await;
+                    }
+                }
+            }
+            w.progress().await;
+            w.reap().await;
+        }
         let best = w.correct().into_iter().max_by_key(|i| w.node(*i).engine.durable_next()).unwrap();
         for i in w.correct() {
             if i != best {
@@ -572,7 +601,9 @@ fn c06_check(case: &SimCase, st: &mut Stats) -> Result<(), String> {
             st.class("node_down_at_heal");
         }
         if result.is_ok() {
-            result = fair_suffix(&mut w, &mut info, st).await;
+            // the delivery order of the suffix is a function of the case (so that replays agree)
+            let order = (common::fingerprint(&case.actions) % 3) as u8;
+            result = fair_suffix(&mut w, &mut info, st, order).await;
         }
         summarize(&w, &mut info);
         w.shutdown().await;
